@@ -242,7 +242,7 @@ Ltac binv H :=
 (* 4. the top level of gen                                                                          *)
 (* ================================================================================================ *)
 Definition ginit : gstate :=
-  push_symbols (emit (mkGS [] [] [] [] [] [] [] [] [] 0 root_ctx 0) (IPrepare (-1) (-1) 0)) name_root.
+  push_symbols (emit (mkGS [] [] [] [] [] [] [] [] [] 0 root_ctx root_line) (IPrepare (-1) (-1) 0)) name_root.
 
 Definition gen_body (cfg : cfgen) (parsed_ok : bool) (perrs : list serr) (root : option node) : result gstate :=
   if negb parsed_ok then
